@@ -52,6 +52,13 @@ pub fn world3() -> Hierarchy<Arc<Relation>> {
     let y: Relation = Relation::table().name("y").schema(vec![("id", DataType::integer_interval(0, 1000)), ("xid", DataType::integer_interval(0, 1000)), ("v", DataType::float()), ("c", DataType::integer_interval(0, i64::MAX))].into_iter().collect::<qrlew::relation::Schema>()).size(i64::MAX).build();
     vec![(vec!["x".to_string()], Arc::new(x)), (vec!["y".to_string()], Arc::new(y))].into_iter().collect()
 }
+/// the same tables with the privacy-unit column declared by the list of its values, to be used with hashing off
+pub fn world3_uidvals() -> Hierarchy<Arc<Relation>> {
+    world3().iter().map(|(path, r)| { let fields: Vec<(String, DataType)> = r.schema().iter().map(|f| (f.name().to_string(), if f.name() == "id" && path.last().map(|p| p == "x").unwrap_or(false) { DataType::integer_values((0..16).collect::<Vec<i64>>()) } else { f.data_type() })).collect();
+        let t: Relation = Relation::table().name(path.last().unwrap().as_str()).schema(fields.iter().map(|(n, t)| (n.as_str(), t.clone())).collect::<qrlew::relation::Schema>()).size(1000).build();
+        (path.to_vec(), Arc::new(t)) }).collect()
+}
+pub fn privacy_unit3_nohash() -> PrivacyUnit { PrivacyUnit::from((vec![("x", vec![], "id"), ("y", vec![("xid", "x", "id")], "id")], false)) }
 pub fn privacy_unit3() -> PrivacyUnit { PrivacyUnit::from(vec![("x", vec![], "id"), ("y", vec![("xid", "x", "id")], "id")]) }
 
 fn num_col(rng: &mut Rng) -> &'static str { *rng.pick(&["i", "j", "p", "z", "m", "q", "f", "g", "h", "u", "w", "n", "o", "k", "e"]) }
@@ -92,7 +99,8 @@ pub fn gen(rng: &mut Rng, _k: usize, _tier: &str) -> J {
     };
     let eps = *rng.pick(&[1.0, 1.0, 0.0, 1e-300, 1e300, f64::INFINITY]);
     let delta = *rng.pick(&[1e-5, 1e-5, 0.0, 1.0, 1e-300]);
-    json!({"sql": sql, "eps": if eps.is_finite() { json!(eps) } else { json!("inf") }, "delta": delta})
+    // one case in six: the privacy-unit column is declared by the list of its values and is not hashed
+    json!({"sql": sql, "eps": if eps.is_finite() { json!(eps) } else { json!("inf") }, "delta": delta, "uidvals": rng.chance(1, 6)})
 }
 
 fn shape(sql: &str) -> String {
@@ -106,7 +114,10 @@ pub fn eval(case: &J) -> Outcome {
     let sql = case["sql"].as_str().unwrap().to_string();
     let sh = shape(&sql);
     out.tag(&format!("shape={sh}"));
-    let rels = world3();
+    let uidvals = case["uidvals"] == true;
+    if uidvals { out.tag("unit-declared-by-values"); }
+    let rels = if uidvals { world3_uidvals() } else { world3() };
+    let privacy_unit3 = || if uidvals { privacy_unit3_nohash() } else { privacy_unit3() };
     let rel = match guarded(|| { let q = parse(&sql).map_err(|e| e.to_string())?; Relation::try_from(QueryWithRelations::new(&q, &rels)).map_err(|e| e.to_string()) }) {
         Ok(Ok(r)) => r, Ok(Err(_)) => { out.tag("compile=err"); out.tag("trivial"); return out; }
         Err((loc, msg)) => { out.tag("compile=panic");
